@@ -114,10 +114,15 @@ def _encword(text: str, charset: str, mode: str) -> str:
 @st.composite
 def phrase(draw, profile):
     """Display-name / subject text as octets-in-latin-1 str."""
-    k = draw(st.integers(0, 13))
+    k = draw(st.integers(0, 14))
     ws = " ".join(draw(st.lists(st.sampled_from(WORDS), min_size=1, max_size=5)))
     if profile == "simple" or k <= 3:
         return ws
+    if k == 14:
+        # an encoded word that decodes to text with a line break / control character in it
+        # (seeded/C07-5: only line breaks followed by white space were removed from quoted strings)
+        brk = draw(st.sampled_from(["\r\n", "\n", "\r", "\r\n\r\n", "\n* BYE ", "\t", "\r\n "]))
+        return _encword(ws + brk + draw(st.sampled_from(WORDS)), draw(st.sampled_from(["utf-8", "us-ascii", "iso-8859-1"])), draw(st.sampled_from("BQ")))
     if k == 12:
         # a character outside latin-1 AND quoted-specials in one value (seeded/C07-2: escaping applied
         # before RFC 2047 encoding ends up inside the encoded word)
@@ -269,7 +274,7 @@ def render_fields(hs, style: int = 0) -> bytes:
 
 @st.composite
 def leaf(draw, allow8: bool, tag: str, kinds=None):
-    kinds = kinds or ["7bit", "7bit", "implicit", "html", "qp", "b64text", "b64bin", "empty"] + (["8utf8", "8latin1", "8raw"] if allow8 else [])
+    kinds = kinds or ["7bit", "7bit", "implicit", "html", "qp", "b64text", "b64bin", "empty", "binary"] + (["8utf8", "8latin1", "8raw"] if allow8 else [])
     k = draw(st.sampled_from(kinds))
     labels = {"leaf:" + k}
     mf = []
@@ -284,6 +289,13 @@ def leaf(draw, allow8: bool, tag: str, kinds=None):
         elif k == "html":
             body = b"<html><body>\r\n" + b"".join(b"<p>" + ln.encode() + b"</p>\r\n" for ln in lines) + b"</body></html>\r\n"
             mf.append(["Content-Type", "text/html; charset=us-ascii"])
+    elif k == "binary":
+        # `Content-Transfer-Encoding: binary` on line-structured content (seeded/C16-5: such parts written without
+        # line-end conversion)
+        lines = draw(ascii_lines()) + [tok] + draw(ascii_lines(3))
+        body = "\r\n".join(lines).encode("ascii") + CRLF
+        mf.append(["Content-Type", draw(st.sampled_from(["text/plain; charset=us-ascii", "application/octet-stream", "text/x-log", "application/x-vf"]))])
+        mf.append(["Content-Transfer-Encoding", draw(st.sampled_from(["binary", "BINARY", "Binary"]))])
     elif k in ("8utf8", "8latin1", "8raw"):
         cs = "utf-8" if k != "8latin1" else "iso-8859-1"
         lines = draw(uni_lines(WORDSU if cs == "utf-8" else WORDS8)) + [tok]
@@ -306,7 +318,7 @@ def leaf(draw, allow8: bool, tag: str, kinds=None):
     elif k == "b64bin":
         data = draw(st.binary(min_size=0, max_size=120))
         body = b64_encode(data)
-        fn = draw(st.sampled_from(['attachment; filename="a.bin"', "attachment; filename=plain.dat", "attachment; filename*=utf-8''caf%C3%A9.bin", 'inline; filename="with space.bin"; size=12']))
+        fn = draw(st.sampled_from(['attachment; filename="a.bin"', "attachment; filename=plain.dat", "attachment; filename*=utf-8''caf%C3%A9.bin", "attachment; filename*=utf-8''notes%0Afinal.txt", "attachment; filename*=us-ascii''a%0D%0Ab%22c.txt", 'inline; filename="with space.bin"; size=12']))
         mf.append(["Content-Type", draw(st.sampled_from(["application/octet-stream", 'application/octet-stream; name="a.bin"', "image/png", "application-x-gzip; name=\"doc.gz\""]))])
         mf.append(["Content-Transfer-Encoding", "base64"])
         mf.append(["Content-Disposition", fn])
